@@ -3,6 +3,7 @@ package verifsim
 import (
 	"fmt"
 	"io"
+	"os"
 	"sort"
 	"strings"
 	"sync/atomic"
@@ -326,6 +327,7 @@ type resCfg struct {
 	W          []string
 	LowerIDs   bool // id interceptor: strings.ToLower
 	Equiv      bool // WithNoDuplicates-like equivalence on the flat fields
+	EquivNoV   bool // WithMessageEquivalence: messages that differ only in V are equivalent
 	Initial    map[string]mm
 	HasInitial bool // Value: initial value present
 	InitialVal mm
@@ -357,6 +359,16 @@ func newRealResWith(cfg resCfg, clock *simClock, rng io.Reader) *realRes {
 	}
 	if cfg.Equiv {
 		opts = append(opts, resource.WithNoDuplicates())
+	}
+	if cfg.EquivNoV {
+		opts = append(opts, resource.WithMessageEquivalence(func(x, y proto.Message) bool {
+			if isNilMsg(x) || isNilMsg(y) {
+				return isNilMsg(x) && isNilMsg(y)
+			}
+			a, b := proto.Clone(x).(*testproto.TestAllTypes), proto.Clone(y).(*testproto.TestAllTypes)
+			a.DefaultInt32, b.DefaultInt32 = 0, 0
+			return proto.Equal(a, b)
+		}))
 	}
 	if cfg.Coll {
 		if cfg.LowerIDs {
